@@ -112,6 +112,10 @@ func LoadGlobal(repoDir string, overlay map[string][]byte) (*Global, error) {
 				}
 			}
 			if err := g.contracts.LoadContractFile(src, p.Types.Name(), false); err != nil {
+				if os.Getenv("GOVC_LENIENT") != "" {
+					fmt.Fprintln(os.Stderr, "WARNING: skipping rest of contract file:", err)
+					continue
+				}
 				return nil, err
 			}
 		}
